@@ -98,6 +98,60 @@ def seq_of(it, v):
     raise Unsupported(f"seq_of({v!r})")
 
 
+# ---------------------------------------------------------------------------
+# recursive functions over sequences of time-stamped records (t, x) = tup2(int2val(t), x): uninterpreted, with the
+# defining equations (by head/tail) instantiated on the ground terms that occur - at every application and for
+# every decomposition  T == [h] ++ rest  that a pop(0) produced.  Quantifier-free, so counter-models stay available.
+#   drop_aged_prefix(T, now, d)  the records left after removing the longest prefix with now - t >= d
+#   aged_prefix_vals(T, now, d)  the values of that prefix
+#   young_vals(T, now, d)        the values of ALL records with now - t < d
+SEQFUNS = {
+    "drop_aged_prefix": z3.Function("drop_aged_prefix", smt.SeqVal, z3.IntSort(), z3.IntSort(), smt.SeqVal),
+    "aged_prefix_vals": z3.Function("aged_prefix_vals", smt.SeqVal, z3.IntSort(), z3.IntSort(), smt.SeqVal),
+    "young_vals": z3.Function("young_vals", smt.SeqVal, z3.IntSort(), z3.IntSort(), smt.SeqVal),
+}
+
+
+def _seqfun_unfold(it, name, T, now, d, h=None, tl=None):
+    f = SEQFUNS[name]
+    n = z3.Length(T)
+    E = z3.Empty(smt.SeqVal)
+    if h is None:
+        h, tl = T[0], z3.Extract(T, 1, n - 1)
+        nonempty = n > 0
+        it.ctx.assume(z3.Implies(n == 0, f(T, now, d) == E))
+    else:
+        nonempty = z3.BoolVal(True)
+    aged = now - smt.val2int(smt.tup2_0(h)) >= d
+    x = z3.Unit(smt.tup2_1(h))
+    if name == "drop_aged_prefix":
+        body = z3.If(aged, f(tl, now, d), T)
+    elif name == "aged_prefix_vals":
+        body = z3.If(aged, z3.Concat(x, f(tl, now, d)), E)
+    else:
+        body = z3.Concat(z3.If(aged, E, x), f(tl, now, d))
+    it.ctx.assume(z3.Implies(nonempty, f(T, now, d) == body))
+
+
+def seqfun_apply(it, name, T, now, d):
+    apps = it.ctx.__dict__.setdefault("seqfun_apps", [])
+    key = (name, T, now, d)
+    if not any(k[0] == name and k[1].eq(T) and k[2].eq(now) and k[3].eq(d) for k in apps):
+        apps.append(key)
+        _seqfun_unfold(it, name, T, now, d)
+        for (T2, h, tl) in it.ctx.__dict__.get("seqfun_pops", []):
+            if T2.eq(T):
+                _seqfun_unfold(it, name, T, now, d, h, tl)
+    return SEQFUNS[name](T, now, d)
+
+
+def seqfun_pop_fact(it, T, h, tl):
+    it.ctx.__dict__.setdefault("seqfun_pops", []).append((T, h, tl))
+    for (name, T2, now, d) in it.ctx.__dict__.get("seqfun_apps", []):
+        if T2.eq(T):
+            _seqfun_unfold(it, name, T, now, d, h, tl)
+
+
 def seq_pair(it, a, b):
     ta, tb = seq_of(it, a), seq_of(it, b)
     if ta is None and tb is None:
@@ -633,7 +687,7 @@ def list_method(it, lst: ListObj, name):
     def append(it_, args, kw):
         (x,) = args
         if lst.symbolic:
-            lst.term = z3.Concat(lst.term, z3.Unit(it.to_val(x)))
+            lst.term = z3.Concat(lst.term, z3.Unit(it.elem_to_val(lst.elem, x)))
         else:
             lst.items.append(x)
 
@@ -656,6 +710,7 @@ def list_method(it, lst: ListObj, name):
         rest = it.ctx.fresh("rest", "seq")
         if idx == 0:
             it.ctx.assume(lst.term == z3.Concat(z3.Unit(x.t), rest.t))
+            seqfun_pop_fact(it, lst.term, x.t, rest.t)
         else:
             it.ctx.assume(lst.term == z3.Concat(rest.t, z3.Unit(x.t)))
         lst.term = rest.t
